@@ -4,7 +4,7 @@ from __future__ import annotations
 
 from .. import gen, probe, spec
 from ..probe import violation
-from .common import call
+from .common import call, use_as_input_of_derivations
 
 PROP = "C03"
 LEVEL = "exploration"
@@ -162,6 +162,19 @@ def run_case(ctx, g, rng):
                         violation(["C03"], "bijection-on-prefix-free", "standard-curie-expands-differently", curie=curie, **w)
                     probe.note_key(f"pf1:curie:{'syn' if p != r.prefix else 'canon'}:{'empty' if p == '' else 'p'}", True)
                     S.counters["wl:curies"] += 1
+    if g % 4 == 3:
+        for x in use_as_input_of_derivations(api, c, rng):
+            cu = call(c.compress, x)
+            if cu[0] == "ret" and cu[1] is not None:
+                probe.evaluated("round-trip")
+                ea, e, su = call(c.expand_all, cu[1]), call(c.expand, cu[1]), call(c.standardize_uri, x)
+                if ea[0] != "ret" or ea[1] is None or x not in ea[1] or repr(e) != repr(su):
+                    violation(["C03"], "round-trip", "uri-not-among-expand_all-of-its-curie", uri=x, curie=cu[1], expand_all=ea, expand=e, standardize_uri=su,
+                              note="asked after the converter was used as an input of chain / get_subconverter", **w)
+            e = call(c.expand, x + d + "1")
+            if e[0] == "ret" and e[1] is not None and call(c.compress, e[1])[1] is None:
+                violation(["C03"], "round-trip", "expansion-not-compressible", curie=x + d + "1", expanded=e[1],
+                          note="asked after the converter was used as an input of chain / get_subconverter", **w)
     if g % 151 == 0 and allu:
         u = allu[0] + "1"
         probe.sample({**w, "built": how, "uri": u, "compress": call(c.compress, u), "standardize_uri": call(c.standardize_uri, u)})
